@@ -292,7 +292,7 @@ def handle : Handler
       let g ← graphRat? n ip ix dt
       let m := denseOf g
       let nnz := ((List.range g.n).map fun i => (g.row i).length).sum
-      some (showOptList (betweennessFit (α := Rat) g.n nnz (edgeOfDense m) (nbrOf g) (isSymmetric g.n (wOf m))))) "bad-args"
+      some (showOptList (betweennessFit (α := Rat) g.n nnz (edgeOfDense m)))) "bad-args"
   /- betweenness: `directed` = 1 selects the ordered-pair sum (no halving) -/
   | "c04.spec_betweenness", [n, ip, ix, dt, directed, x, eps] => some <| Option.getD (do
       let g ← graphRat? n ip ix dt
@@ -301,7 +301,10 @@ def handle : Handler
       let eps ← rat? eps
       let m := denseOf g
       let e := edgeOfDense m
-      let want := if dir then RankSpec.dependencySum g.n e else RankSpec.betweennessSpec g.n e
+      -- the definition is chosen by the graph itself: unordered pairs when the pattern is symmetric, ordered pairs otherwise
+      let sym := patternSymmetric g.n e
+      let want := if sym then RankSpec.betweennessUndirected g.n e else RankSpec.dependencySum g.n e
+      if sym == dir then some s!"fails harness-flag directed={dir} pattern-symmetric={sym}" else
       some (closeTo g.n x want eps)) "bad-args"
   /- HITS: the sign choice and clipping, exactly -/
   | "c04.hits_post", [v] => some <| Option.getD (do
